@@ -12,6 +12,7 @@ import z3
 Z3_TIMEOUT_MS = int(os.environ.get("PYVC_Z3_TIMEOUT_MS", "20000"))
 CVC5_TIMEOUT_MS = int(os.environ.get("PYVC_CVC5_TIMEOUT_MS", "60000"))
 CVC5_BIN = "/usr/bin/cvc5"
+FAST = os.environ.get("PYVC_FAST") == "1"   # development aid: short z3 budget, no second solver, no retry
 
 
 @dataclass
@@ -85,6 +86,8 @@ def discharge(ob: Obligation, use_cvc5=True, z3_timeout=None, cvc5_timeout=None)
                 ob.model_text = _model_text(ob.model)
         ob.time_s = time.time() - t0
         return ob
+    if FAST:
+        z3_timeout, use_cvc5 = 5000, False
     s = z3.Solver()
     s.set("timeout", z3_timeout or Z3_TIMEOUT_MS)
     for c in ob.pc:
@@ -119,7 +122,7 @@ def discharge(ob: Obligation, use_cvc5=True, z3_timeout=None, cvc5_timeout=None)
                 ob.detail += " | cvc5: " + verdict
             else:
                 ob.detail += " | cvc5: unknown"
-        if ob.status == "unknown" and not ob.expect_sat:
+        if ob.status == "unknown" and not ob.expect_sat and not FAST:
             # last resort before giving up (verdicts must not flip when the machine is busy): longer budget, other seed
             s2 = z3.Solver()
             s2.set("timeout", 3 * (z3_timeout or Z3_TIMEOUT_MS))
